@@ -107,6 +107,20 @@ def load_composed(c):
         os.makedirs(store, exist_ok=True)
         os.rename(main, os.path.join(store, "stored-schema.xml"))
         os.symlink(os.path.join(store, "stored-schema.xml"), main)
+    if _LINK["n"] % 3 == 1 and c.files:
+        # an application that keeps one SchemaLoader: it has loaded the base files as schemas of
+        # their own before (those that are schemas of their own), then loads the schema that
+        # extends them through the same loader
+        import os
+        import ZConfig.loader
+        loader = ZConfig.loader.SchemaLoader()
+        for rel in sorted(c.files):
+            try:
+                loader.loadURL(os.path.join(c.root, *rel.split("/")))
+            except ZConfig.ConfigurationError:
+                pass
+        c.features.add("loader:bases-loaded-before")
+        return loader.loadURL(main)
     return ZConfig.loadSchema(main)
 
 
